@@ -922,23 +922,26 @@ fn sink_main(plan: &J, hist: History) {
             }
         }
         s.flush_fail = ja(plan, "flush_fail").iter().filter_map(|x| x.as_u64()).collect();
+        let ad = ju(plan, "adapter", 0);
+        s.expect_adapter = Some((ad == 1 || ad == 3, (ad == 2 || ad == 3) as u32));
         s
     };
+    let adapter = ju(plan, "adapter", 0);
     enum H {
-        Imm(Arc<FlushImmediately<IdEntry, metrique_writer::stream::Tee<RecStream, RecStream>>>),
+        Imm(Arc<FlushImmediately<IdEntry, Adapted>>),
         Any(metrique_writer::BoxEntrySink),
         Queue(metrique_writer::sink::BackgroundQueue<IdEntry>, Option<metrique_writer::sink::BackgroundQueueJoinHandle>),
     }
     let h = match kind.as_str() {
-        "immediate_tee" => H::Imm(Arc::new(FlushImmediately::new(mk_stream(0, "script_a", false).tee(mk_stream(1, "script_b", false))))),
-        "any_immediate_tee" => H::Any(FlushImmediately::new_boxed(mk_stream(0, "script_a", false).tee(mk_stream(1, "script_b", false)))),
+        "immediate_tee" => H::Imm(Arc::new(FlushImmediately::new(Adapted::new(adapter, mk_stream(0, "script_a", false).tee(mk_stream(1, "script_b", false)))))),
+        "any_immediate_tee" => H::Any(FlushImmediately::new_boxed(Adapted::new(adapter, mk_stream(0, "script_a", false).tee(mk_stream(1, "script_b", false))))),
         _ => {
             let (q, j) = metrique_writer::sink::BackgroundQueueBuilder::new()
                 .capacity(1024)
                 .thread_name("bgq")
                 .flush_interval(Duration::from_nanos(ju(plan, "flush_interval_ns", 1_000_000).max(1000)))
                 .shutdown_timeout(Duration::from_secs(1_000_000))
-                .build::<IdEntry>(mk_stream(0, "script_a", true).tee(mk_stream(1, "script_b", true)));
+                .build::<IdEntry>(Adapted::new(adapter, mk_stream(0, "script_a", true).tee(mk_stream(1, "script_b", true))));
             H::Queue(q, Some(j))
         }
     };
@@ -951,7 +954,7 @@ fn sink_main(plan: &J, hist: History) {
             let r = std::panic::catch_unwind(std::panic::AssertUnwindSafe(|| {
                 // take a cheap handle without holding our own lock across the append
                 enum C {
-                    Imm(Arc<FlushImmediately<IdEntry, metrique_writer::stream::Tee<RecStream, RecStream>>>),
+                    Imm(Arc<FlushImmediately<IdEntry, Adapted>>),
                     Any(metrique_writer::BoxEntrySink),
                     Queue(metrique_writer::sink::BackgroundQueue<IdEntry>),
                 }
@@ -1002,6 +1005,50 @@ fn sink_main(plan: &J, hist: History) {
         _ => None,
     };
     drop(j);
+}
+
+/// What an application puts in front of its output stream: nothing, `merge_globals`, `merge_global_dimensions`, both.
+struct VerifGlobals;
+impl Entry for VerifGlobals {
+    fn write<'a>(&'a self, w: &mut impl EntryWriter<'a>) {
+        w.value("verif_global", &7u64);
+    }
+}
+type TeeRR = metrique_writer::stream::Tee<RecStream, RecStream>;
+enum Adapted {
+    Plain(TeeRR),
+    Globals(metrique_writer::stream::MergeGlobals<TeeRR, VerifGlobals>),
+    Dims(metrique_writer::stream::MergeGlobalDimensions<TeeRR, 1>),
+    Both(metrique_writer::stream::MergeGlobals<metrique_writer::stream::MergeGlobalDimensions<TeeRR, 1>, VerifGlobals>),
+}
+impl Adapted {
+    fn new(kind: u64, t: TeeRR) -> Adapted {
+        let dims = || smallvec::smallvec![(Cow::Borrowed("verif_dim"), Cow::Borrowed("d"))];
+        match kind {
+            1 => Adapted::Globals(t.merge_globals(VerifGlobals)),
+            2 => Adapted::Dims(t.merge_global_dimensions(dims(), None)),
+            3 => Adapted::Both(t.merge_global_dimensions(dims(), None).merge_globals(VerifGlobals)),
+            _ => Adapted::Plain(t),
+        }
+    }
+}
+impl EntryIoStream for Adapted {
+    fn next(&mut self, entry: &impl Entry) -> Result<(), IoStreamError> {
+        match self {
+            Adapted::Plain(s) => s.next(entry),
+            Adapted::Globals(s) => s.next(entry),
+            Adapted::Dims(s) => s.next(entry),
+            Adapted::Both(s) => s.next(entry),
+        }
+    }
+    fn flush(&mut self) -> io::Result<()> {
+        match self {
+            Adapted::Plain(s) => s.flush(),
+            Adapted::Globals(s) => s.flush(),
+            Adapted::Dims(s) => s.flush(),
+            Adapted::Both(s) => s.flush(),
+        }
+    }
 }
 
 /// A subscriber that reacts to warning / error events by calling back into the application (tracing itself keeps the
@@ -1061,6 +1108,9 @@ fn check_one_stream(h: &[Ev], stream: u32) -> Option<Violation> {
 }
 
 fn check_sink_faults(plan: &J, h: &[Ev]) -> Option<Violation> {
+    if let Some(n) = h.iter().find_map(|e| match &e.k { K::Note(n) if n.starts_with("adapter_lost") => Some(n.clone()), _ => None }) {
+        return Some(Violation::new("stream_adapter_skipped", n));
+    }
     // per stream: every appended entry exactly once, per-thread order
     let mut appended: Vec<u64> = vec![];
     for e in h {
@@ -1072,6 +1122,13 @@ fn check_sink_faults(plan: &J, h: &[Ev]) -> Option<Violation> {
                 appended.push(*id);
             }
             _ => {}
+        }
+    }
+    // nothing but the appended entries reaches the streams of a flush-immediately sink (the in-band error report is the
+    // background queue's alone)
+    if js(plan, "kind", "").contains("immediate") {
+        if let Some(e) = h.iter().find(|e| matches!(e.k, K::NextBegin { report: true, .. })) {
+            return Some(Violation::new("unexpected_entry", format!("the flush-immediately sink handed its stream an entry that nobody appended (an error report, event #{})", e.seq)));
         }
     }
     // a flush-immediately sink: whatever a stream was handed during an append is flushed before the append returns,
@@ -1196,6 +1253,8 @@ impl Scenario for SinkFaults {
             "flush_fail": if rng.chance(0.3) { json!([rng.below(4), rng.below(9)]) } else { json!([]) },
             "flush_interval_ns": *rng.pick(&[50_000u64, 5_000_000, 1_000_000_000]),
             "reentrant_subscriber": mix(ju(&sched, "seed", 0), 0x5ab) % 4 == 0,
+            // what sits between the sink and the tee: nothing (half), merge_globals, merge_global_dimensions, both
+            "adapter": (mix(ju(&sched, "seed", 0), 0xada) % 6).saturating_sub(2),
         })
     }
     fn run(&self, plan: &J) -> Report {
